@@ -1,4 +1,5 @@
-"""./check setup — build everything the checks share, offline, from files on disk."""
+"""./check setup — build everything the claimed checks share, offline, from files on disk."""
+import json
 import os
 import re
 
@@ -7,11 +8,24 @@ from . import common as C
 
 def run():
     rc = 0
-    exes = re.findall(r'name = "(drv_\w+)"', open(os.path.join(C.LEAN, "lakefile.toml")).read())
-    ok, out = C.lean_build(["DoraModel"] + exes, timeout=7200)
-    C.log("lean: %s" % ("ok" if ok else "FAILED\n" + out[-3000:]))
+    claimed = [c["property_id"].lower() for c in json.load(open(os.path.join(C.VERIF, "MANIFEST.json")))["checks"]]
+    lk = open(os.path.join(C.LEAN, "lakefile.toml")).read()
+    exes = [e for e in re.findall(r'name = "(drv_\w+)"', lk) if e[4:] in claimed]
+    mods = ["DoraModel.Props.%s" % c.upper() for c in claimed
+            if os.path.exists(os.path.join(C.LEAN, "DoraModel", "Props", c.upper() + ".lean"))]
+    # regenerated model files must exist before lake can build (each check regenerates them again)
+    for c in claimed:
+        mod = __import__("checks." + c, fromlist=["x"])
+        if hasattr(mod, "regenerate"):
+            try:
+                mod.regenerate()
+            except Exception as e:  # noqa
+                C.log("regenerate %s: %s" % (c, e))
+    ok, out = C.lean_build(mods + exes, timeout=7200)
+    C.log("lean (%d modules, %d drivers): %s" % (len(mods), len(exes), "ok" if ok else "FAILED\n" + out[-3000:]))
     rc |= 0 if ok else 1
-    crates = sorted(d for d in os.listdir(os.path.join(C.HARNESS, "crates")) if d != "hutil")
+    crates = sorted(d for d in os.listdir(os.path.join(C.HARNESS, "crates"))
+                    if d in claimed and os.path.exists(os.path.join(C.HARNESS, "crates", d, "Cargo.toml")))
     for c in crates:
         p, out = C.build_harness("h_" + c, timeout=7200)
         C.log("harness h_%s: %s" % (c, "ok" if p else "FAILED\n" + out[-3000:]))
